@@ -93,6 +93,12 @@ def run(ck):
             energies[0] = max(energies) + 700.0        # first site far above another one
         bathT = rng.choice([None, 300.0, 77.0])
         reorgs = [rng.choice([20.0, 60.0, 120.0]) for _ in range(n)]
+        if s % 3 == 1:
+            # boundary: the reorganisation energies REORDER the sites (lowest bare energy is not the lowest relaxed energy),
+            # incl. degenerate bare energies
+            energies = [12000.0 + (0.0 if rng.random() < 0.3 else 12.0 * k) for k in range(n)]
+            reorgs = [10.0 + 45.0 * k for k in range(n)]
+            bathT = rng.choice([300.0, 77.0])
         modes = rng.random() < 0.25 and n <= 3
         try:
             agg = make(n, energies, bathT, reorgs, modes)
